@@ -217,6 +217,42 @@ fn run_cell(tokens: &[&str]) -> String {
     format!("{} | {} {} {} {}", out.join(" "), held_r, if held_w { 1 } else { 0 }, after_w, after_all)
 }
 
+const NULLV_R: i64 = -999999;
+
+/// all integers in a rendered container (`[1, 2]`, `{k1: 10, k2: null}`), keys `k<n>` as n,
+/// `null` as the model's null value
+fn ints_in_text(s: &str) -> Vec<i64> {
+    let t = s.replace("null", "-999999");
+    let b = t.as_bytes();
+    let mut out = vec![];
+    let mut i = 0;
+    while i < b.len() {
+        if b[i].is_ascii_digit() || (b[i] == b'-' && i + 1 < b.len() && b[i + 1].is_ascii_digit()) {
+            let st = i;
+            i += 1;
+            while i < b.len() && b[i].is_ascii_digit() {
+                i += 1;
+            }
+            if let Ok(v) = t[st..i].parse::<i64>() {
+                out.push(v);
+            }
+        } else {
+            i += 1;
+        }
+    }
+    out
+}
+
+fn int_of(x: &KValue) -> Option<i64> {
+    match x {
+        KValue::Number(KNumber::I64(n)) => Some(*n),
+        KValue::Number(KNumber::F64(f)) => Some(*f as i64),
+        KValue::Null => Some(NULLV_R),
+        KValue::Str(s) => s.as_str().strip_prefix('k').and_then(|d| d.parse().ok()),
+        _ => None,
+    }
+}
+
 fn res_token(v: &KValue) -> String {
     match v {
         KValue::Null => "null".into(),
@@ -227,10 +263,23 @@ fn res_token(v: &KValue) -> String {
         },
         KValue::Str(s) if s.as_str() == "u" => "u".into(),
         KValue::Str(s) if s.as_str() == "E" => "E".into(),
+        KValue::Str(s) if s.starts_with('[') || s.starts_with('{') => {
+            let v = ints_in_text(s.as_str());
+            format!("({})", v.iter().map(|x| x.to_string()).collect::<Vec<_>>().join(" "))
+        }
         KValue::Tuple(t) => ints_token(t.iter()),
         KValue::List(l) => {
             let d = l.data().clone();
             ints_token(d.iter())
+        }
+        KValue::Map(m) => {
+            let d = m.data().clone();
+            let mut flat = vec![];
+            for (k, x) in d.iter() {
+                flat.push(k.value().clone());
+                flat.push(x.clone());
+            }
+            ints_token(flat.iter())
         }
         other => format!("?{}", kvh::canon::value(other).replace(' ', "_")),
     }
@@ -242,10 +291,9 @@ fn ints_token<'a>(it: impl Iterator<Item = &'a KValue>) -> String {
         if i > 0 {
             s.push(' ');
         }
-        match x {
-            KValue::Number(KNumber::I64(n)) => s.push_str(&n.to_string()),
-            KValue::Number(KNumber::F64(f)) => s.push_str(&(*f as i64).to_string()),
-            other => s.push_str(&format!("?{}", kvh::canon::value(other).replace(' ', "_"))),
+        match int_of(x) {
+            Some(n) => s.push_str(&n.to_string()),
+            None => s.push_str(&format!("?{}", kvh::canon::value(x).replace(' ', "_"))),
         }
     }
     s.push(')');
@@ -264,14 +312,8 @@ fn contents_token(v: &KValue) -> String {
                 if i > 0 {
                     s.push(' ');
                 }
-                let kk = match k.value() {
-                    KValue::Number(KNumber::I64(n)) => n.to_string(),
-                    o => format!("?{}", kvh::canon::value(o)),
-                };
-                let vv = match x {
-                    KValue::Number(KNumber::I64(n)) => n.to_string(),
-                    o => format!("?{}", kvh::canon::value(o)),
-                };
+                let kk = int_of(k.value()).map(|n| n.to_string()).unwrap_or_else(|| format!("?{}", kvh::canon::value(k.value())));
+                let vv = int_of(x).map(|n| n.to_string()).unwrap_or_else(|| format!("?{}", kvh::canon::value(x)));
                 s.push_str(&format!("({} {})", kk, vv));
             }
             s.push(')');
@@ -288,7 +330,8 @@ fn make_container(kind: &str, init: &Value) -> KValue {
             for e in init.as_array().cloned().unwrap_or_default() {
                 let k = e[0].as_i64().unwrap_or(0);
                 let v = e[1].as_i64().unwrap_or(0);
-                m.insert(ValueKey::try_from(KValue::from(k)).unwrap(), KValue::from(v));
+                let val = if v == NULLV_R { KValue::Null } else { KValue::from(v) };
+                m.insert(format!("k{}", k).as_str(), val);
             }
             KValue::Map(m)
         }
@@ -552,4 +595,5 @@ impl Drop for Child {
 include!("c19_parts/ops.rs");
 include!("c19_parts/gen.rs");
 include!("c19_parts/stress.rs");
+include!("c19_parts/table.rs");
 include!("c19_parts/run.rs");
